@@ -108,3 +108,46 @@ PROPS["C19"] = {"engine": "exec", "configs": {"quick": ["dbg"], "thorough": ["db
                                "reference": ["dispatch-history invariants X1-X7 over the recorded callbacks", "PLAN's exact solution checker after every adaptation"]},
                 "assumptions": ["LA temporal network only (the executor adapts real-valued start/end/at)", "an execution_exception is a legal outcome and ends the run"],
                 "sim_time_counter": "ticks"}
+
+
+# ---------------------------------------------------------------------------------------------
+# C20: parallel pivoting under the deterministic thread scheduler
+# ---------------------------------------------------------------------------------------------
+def par_jobs(check, part, cfg):
+    """for every history: its log under the sequential build (separate binary) is the reference; then the PARALLELIZE
+    build runs it under the canonical schedule and under K seeded schedules x pool sizes, each told what to expect."""
+    from . import common as C
+    from .pool import Worker
+    seq = Worker(C.build_engine("par", "seq"))
+    k = 6 if check.tier == "quick" else 24
+    sizes = [1, 2, 3, 4] if check.tier == "quick" else [1, 2, 3, 4, 8]
+    try:
+        i = 0
+        while True:
+            seed = C.run_seed(check.master, "C20", check.tier, i)
+            i += 1
+            ref = seq.run("run", {"seed": seed, "prop": "C20"})
+            if ref.status != "OK":
+                continue
+            h = ref.kv.get("hash")
+            check.seq_refs = getattr(check, "seq_refs", 0) + 1
+            yield ("run", {"seed": seed, "sched": 0, "policy": 0, "nprocs": 3, "expect": h, "prop": "C20"}, None)
+            for j in range(1, k + 1):
+                m = C.mix64(seed ^ j)
+                yield ("run", {"seed": seed, "sched": j, "policy": 1 + (m & 1), "nprocs": sizes[(m >> 1) % len(sizes)], "spurious": [0, 20, 60][(m >> 8) % 3], "expect": h, "prop": "C20"}, None)
+    finally:
+        seq.close()
+
+
+PAR_RULE = ("a run = one seeded LRA history (NET generator, LRA profile, extra relations for dense tableaux) executed by the PARALLELIZE build under one schedule: "
+            "the scheduler owns every pthread synchronisation point (mutex lock/unlock, condition wait/signal/broadcast, thread create/join) and decides who runs; "
+            "policy canonical / uniformly random / sticky random, pool sizes 1-4 (8 thorough), faults: spurious wake-ups, late worker start, lost races for a mutex; "
+            "reference = observation log of the same history on the PARALLELIZE=OFF build; non-trivial = at least two worker threads executed pivot tasks and at least two were busy at the same time; "
+            "distinct = distinct (history, schedule decisions) hash")
+PROPS["C20"] = {"engine": "par", "configs": {"quick": ["par"], "thorough": ["par"]}, "budget": {"quick": 45, "thorough": 900}, "jobs": par_jobs, "minimise": True,
+                "run_kv": {}, "level": "exploration", "rule": PAR_RULE,
+                "components": {"real": ["smt::sat_core", "smt::lra_theory (PARALLELIZE=ON, -fsanitize=thread instrumentation)", "smt::thread_pool (libconcurrent)", "libstdc++ std::thread / std::mutex / std::condition_variable"],
+                               "stub": ["pthread_mutex_*/pthread_cond_*/pthread_create/pthread_join/get_nprocs are interposed by the scheduler (the real primitives are never blocked on)", "the TSan runtime is replaced by the engine's own happens-before detector"],
+                               "reference": ["observation log of the sequential (PARALLELIZE=OFF) build", "vector-clock happens-before race detector", "deadlock = no runnable thread"]},
+                "assumptions": ["accesses inside uninstrumented libraries (libstdc++.so internals) are invisible to the race detector", "main-thread accesses create shadow cells only while some worker is busy"],
+                "sim_time_counter": "sched.steps"}
